@@ -17,7 +17,7 @@ func init() {
 }
 
 var c11Literals = []string{
-	"da <> 'group by x'", "da <> 'x having y'", "da <> 'order by z'", "da <> 'limit 5'", "da <> 'from t0'", "da LIKE '%group by %'",
+	"da <> 'group by x'", "da <> 'x having y'", "da <> 'order by z'", "da <> 'limit 5'", "da <> 'from t0'", "da <> 'crosstab(db)'", "da <> 'x crosstabt(dc) y'", "da LIKE '%group by %'",
 	"da IN (SELECT da FROM t0 GROUP BY da)", "da IN (SELECT da FROM t0 GROUP BY da HAVING _points > 0)", "db IN (SELECT db FROM t0 GROUP BY db)",
 }
 
